@@ -48,17 +48,41 @@ class FastCtx(sym.Ctx):
         self.add(z3.Not(e))
         s = z3.simplify(e)
         if z3.is_false(s) or z3.is_true(s): return
-        self._kf.setdefault(s.hash(), []).append(s)
+        self._kf[s.get_id()] = s        # the AST is kept alive, so its id cannot be recycled
 
     def branch(self, e):
         kf = getattr(self, '_kf', None)
         if kf:
             s = z3.simplify(e)
-            for k in kf.get(s.hash(), ()):
-                if k.eq(s):
-                    self.kf_hits += 1
-                    return False
+            k = kf.get(s.get_id())
+            if k is not None and k.eq(s):
+                self.kf_hits += 1
+                return False
         return sym.Ctx.branch(self, e)
+
+    def solve(self, extra, full=False, timeout_ms=None):
+        """Same query as sym.Ctx.solve (fresh solver, slice of the pc plus extra); the
+        constraints are asserted through the C API directly, which avoids the
+        per-constraint sort casts of Solver.add (about a third of the run time here)."""
+        if getattr(self, 'isolver', None) is not None or getattr(self, 'logic', None):
+            return sym.Ctx.solve(self, extra, full, timeout_ms)      # engine modes not used here
+        import time as _time
+        s = z3.Solver()
+        s.set('timeout', timeout_ms or self.timeout_ms)
+        cons = self.pc if full else self.slice_for(extra)
+        cref, sol = s.ctx.ref(), s.solver
+        for c in cons: z3.Z3_solver_assert(cref, sol, c.as_ast())
+        s.add(extra)
+        t0 = _time.time()
+        r = s.check()
+        dt = _time.time() - t0
+        self.stats['queries'] += 1
+        self.stats['solver_s'] += dt
+        rs = str(r)
+        self.stats[rs] = self.stats.get(rs, 0) + 1
+        if rs == 'sat':
+            return 'sat', s.model()
+        return rs, None
 
 
 # ---------------------------------------------------------------------------
